@@ -66,7 +66,8 @@ def signal_case(ctx, idx, seed):
         n, edges, fam = W.g_diamonds(1)
     sleep = [rng.choice([0.2, 0.4, 0.8]) for _ in range(n)]
     workers = rng.choice([1, 2, 4])
-    ws = W.CliWs(ctx, f"c18-{idx}", n, edges, sleep=sleep, workers=workers, dir_outputs=(n - 1,) if rng.random() < 0.5 else ())
+    sleep_after = tuple(m for m in range(n) if rng.random() < 0.5)
+    ws = W.CliWs(ctx, f"c18-{idx}", n, edges, sleep=sleep, workers=workers, dir_outputs=(n - 1,) if rng.random() < 0.5 else (), sleep_after=sleep_after)
     sig = rng.choice([signal.SIGINT, signal.SIGTERM])
     # signal time: start-up (0..0.1), execution, around the end (output writing / shutdown)
     zone = rng.random()
@@ -111,10 +112,10 @@ def signal_case(ctx, idx, seed):
         if latency > 5.0:
             bad.append(("interrupt-slow-exit", f"grog exited {latency:.1f} s after {sig.name} (bound 5 s)"))
         late = sorted(m for m, t in started.items() if t > t_sig_ns + 0.5e9)
-        if late and rc != 0:
+        if late:
             bad.append(("command-started-after-signal", f"commands of {late} started more than 0.5 s after {sig.name}"))
         survivors = sorted(m for m, t in ended.items() if m in started and started[m] < t_sig_ns and t > t_sig_ns + 1.5e9)
-        if survivors and rc != 0:
+        if survivors:
             bad.append(("shell-survived-signal", f"target shells of {survivors} were running at the signal and still reached their end 1.5 s later"))
     entries = ws.target_cache_entries()
     res["cache_entries"] = entries
